@@ -1136,7 +1136,13 @@ func (d *DNSFilter) updatesLoop() {
 func (d *DNSFilter) periodicallyRefreshFilters(ivl time.Duration) (nextIvl time.Duration) {
 	const maxInterval = time.Hour
 
-	if d.conf.FiltersUpdateIntervalHours == 0 {
+	// The interval is changed by the filtering configuration handler under
+	// filtersMu.
+	d.conf.filtersMu.RLock()
+	updIvlHours := d.conf.FiltersUpdateIntervalHours
+	d.conf.filtersMu.RUnlock()
+
+	if updIvlHours == 0 {
 		return ivl
 	}
 
